@@ -321,6 +321,44 @@ fn run_one(text: &str) {
                     }
                 }
             }
+            "change_metric" => {
+                // from=bq_euclidean to=euclidean dim=N: a self-contained sub-scenario in its own database
+                use crate::distance::BinaryQuantizedEuclidean as Bq;
+                let d: usize = kv(&tok, "dim").unwrap().parse().unwrap();
+                let dir2 = tempfile::tempdir().unwrap();
+                let env2 = unsafe { EnvOpenOptions::new().map_size(200 * 1024 * 1024).open(dir2.path()) }.unwrap();
+                let mut w2txn = env2.write_txn().unwrap();
+                let dbq: Database<Bq> = env2.create_database(&mut w2txn, None).unwrap();
+                let wq = Writer::<Bq>::new(dbq, 0, d);
+                for i in 0..4u32 {
+                    let v: Vec<f32> = (0..d).map(|j| if (j as u32 + i) % 2 == 0 { 1.0 } else { -1.0 }).collect();
+                    wq.add_item(&mut w2txn, i, &v).unwrap();
+                }
+                let mut rng = StdRng::seed_from_u64(0);
+                wq.builder(&mut rng).n_trees(1).split_after(2).build(&mut w2txn).unwrap();
+                let we = wq.prepare_changing_distance::<Euclidean>(&mut w2txn).unwrap();
+                let raw2 = dbq.remap_types::<Bytes, Bytes>();
+                for i in 0..4u32 {
+                    let key = Key::item(0, i);
+                    let kb = KeyCodec::bytes_encode(&key).unwrap();
+                    let len = raw2.get(&w2txn, &kb).unwrap().unwrap().len();
+                    if len != 1 + 4 + 4 * d {
+                        verdict.push(format!("after changing the metric the leaf of item {i} is {len} bytes, a {d}-dimensional euclidean leaf is {} bytes", 1 + 4 + 4 * d));
+                        break;
+                    }
+                }
+                let v: Vec<f32> = (0..d).map(|j| j as f32).collect();
+                we.add_item(&mut w2txn, 9, &v).unwrap();
+                let mut rng = StdRng::seed_from_u64(0);
+                let r = std::panic::catch_unwind(std::panic::AssertUnwindSafe(|| {
+                    we.builder(&mut rng).n_trees(1).split_after(2).build(&mut w2txn).map_err(|e| e.to_string())
+                }));
+                match r {
+                    Err(_) => verdict.push("building after the metric change panicked".into()),
+                    Ok(Err(e)) => verdict.push(format!("building after the metric change failed: {e}")),
+                    Ok(Ok(())) => println!("STEP rebuilt under the new metric"),
+                }
+            }
             "expect_n_trees_at_least" => {
                 let md = db.remap_data_type::<MetadataCodec>().get(&wtxn, &Key::metadata(index)).unwrap().unwrap();
                 let n: usize = tok[1].parse().unwrap();
